@@ -1,4 +1,5 @@
 import CV.Properties.C01_ans
+import CV.Proofs.AnsAtomic
 /-!
 # C09 (ANS part) — impossible symbols are rejected, a failed encode leaves the coder intact
 -/
@@ -85,6 +86,48 @@ theorem bounded_backend_error_or_ok {c : Cfg} (hc : c.Valid) {x : Coder} (hx : I
         have := Except.ok.inj h
         rw [← this]
 
+
+/-! ## Atomicity on the statement-by-statement transcription
+
+`encode` returns no coder on failure, so the theorem above cannot even express a partially
+mutated coder.  `encodeSymbolM` (Model/Ans.lean) transcribes `encode_symbol` statement by
+statement and returns the coder as the real code leaves it; these are the statements C09 means.
+The driver answers every `enc` / `encnone` / batch line through `encodeSymbolM`. -/
+
+/-- an impossible symbol is rejected and the coder is left exactly as it was -/
+theorem impossible_leaves_coder_intact (c : Cfg) (m : Model Sym) (s : Sym) (x : Coder)
+    (h : m.enc s = none) : encodeSymbolM c m s x = (x, .error .impossible) :=
+  encodeSymbolM_impossible c m s x h
+
+/-- a write refused by a full (bounded) backend is reported and the coder is left exactly as it
+    was: `bulk.write(..)?` precedes every mutation of `state` -/
+theorem backend_full_leaves_coder_intact (c : Cfg) (m : Model Sym) (s : Sym) (x : Coder)
+    (h : encode c m s x = .error .backendFull) :
+    encodeSymbolM c m s x = (x, .error .backendFull) :=
+  encodeSymbolM_full c m s x h
+
+/-- an attempt to encode `(symbol, model)` at configuration `c`, the caller keeping the coder
+    whatever the outcome -/
+def attempt (x : Coder) (a : Cfg × Model Sym × Sym) : Coder := (encodeSymbolM a.1 a.2.1 a.2.2 x).1
+
+/-- **Impossible symbols inserted at any points of any encode history can be erased**: the coder
+    after the history with the rejected attempts is the coder after the history without them
+    (hence, by C01, everything encoded before and after still decodes). -/
+theorem attempts_erasure (l : List (Cfg × Model Sym × Sym)) (x : Coder) :
+    l.foldl attempt x = (l.filter (fun a => (a.2.1.enc a.2.2).isSome)).foldl attempt x := by
+  induction l generalizing x with
+  | nil => rfl
+  | cons a l ih =>
+    cases h : a.2.1.enc a.2.2 with
+    | none =>
+      have hx : attempt x a = x := by
+        unfold attempt; rw [encodeSymbolM_impossible a.1 a.2.1 a.2.2 x h]
+      simp only [List.foldl_cons, List.filter_cons, h, Option.isSome_none, hx]
+      exact ih x
+    | some cp =>
+      simp only [List.foldl_cons, List.filter_cons, h, Option.isSome_some, if_true]
+      exact ih _
+
 /-- After a rejected symbol everything pushed before still pops: the history theorem of C01 with
     failed pushes interleaved (a failed push does not change the run state). -/
 theorem history_with_failures {W S : Nat} (hWS : 1 ≤ W ∧ 2 * W ≤ S)
@@ -106,3 +149,6 @@ end CV.Ans.C09
 #print axioms CV.Ans.C09.impossible_rejected
 #print axioms CV.Ans.C09.bounded_backend_error_or_ok
 #print axioms CV.Ans.C09.history_with_failures
+#print axioms CV.Ans.C09.impossible_leaves_coder_intact
+#print axioms CV.Ans.C09.backend_full_leaves_coder_intact
+#print axioms CV.Ans.C09.attempts_erasure
